@@ -1,6 +1,6 @@
 (* PackageCmd.v -- stateful commands on a package under test. *)
 From MsiModel Require Import Base Sexp Value Expr Category Column CodePage Pool Table Container StreamName
-  Propset Summary Query Package ExprCmd ColumnCmd Timestamp Language.
+  Propset Summary Query Package ExprCmd ColumnCmd Timestamp Language QueryText.
 From MsiGen Require Import GenConsts GenCatalog GenStreamName.
 Open Scope string_scope.
 
@@ -109,6 +109,24 @@ Definition reopen (st : state) (k : pkg) : state * sx :=
       end
   end.
 
+(* C19: the text of a query object, as fmt::Display writes it *)
+Definition sx_query (s : sx) : option query :=
+  match s with
+  | SL [SY "insert"; n; rows] =>
+      match as_str n, as_listof (as_listof sx_value) rows with
+      | Some n', Some rs => Some (QInsert n' rs) | _, _ => None end
+  | SL [SY "delete"; n; cond] =>
+      match as_str n, sx_cond cond with
+      | Some n', Some c => Some (QDelete n' (option_map build c)) | _, _ => None end
+  | SL [SY "update"; n; ups; cond] =>
+      match as_str n, as_listof (fun u => match u with
+                                          | SL [c; v] => match as_str c, sx_value v with
+                                                         | Some c', Some v' => Some (c', v') | _, _ => None end
+                                          | _ => None end) ups, sx_cond cond with
+      | Some n', Some us, Some c => Some (QUpdate n' us (option_map build c)) | _, _, _ => None end
+  | _ => option_map (fun q => QSelect (build_sel q)) (sx_sel s)
+  end.
+
 (* C16: save, open the saved container, use read operations only (they do not return a package: by construction they
    cannot change it), close; reports (number of streams the session rewrote, container identical) *)
 Definition entries_eqb (a b : list (str * bytes)) : bool :=
@@ -149,6 +167,7 @@ Definition add_signature (st : state) (k : pkg) : state * sx :=
 Definition pkg_cmd (st : state) (name : string) (args : list sx) : option (state * sx) :=
   let prof := st_prof st in
   match name, args with
+  | "query_text", [q] => option_map (fun q' => (st, SL [SY "ok"; sx_str (query_text q')])) (sx_query q)
   | "profile", [SY p] => Some (mkstate (if String.eqb p "release" then Release else Debug) (st_pkg st), SL [])
   | "create", [SI t] =>
       match sx_ptype t with
